@@ -24,8 +24,12 @@ var dstLibraryOK = map[string]bool{
 	"github.com/klauspost/compress/snappy.Encode": true, "github.com/klauspost/compress/snappy.Decode": true,
 	"github.com/golang/snappy.Encode": true, "github.com/golang/snappy.Decode": true,
 	"github.com/pierrec/lz4/v4.UncompressBlock": true, "github.com/pierrec/lz4/v4.(*Compressor).CompressBlock": true, "github.com/pierrec/lz4/v4.(*CompressorHC).CompressBlock": true,
-	"github.com/klauspost/compress/zstd.(*Encoder).EncodeAll": true, "github.com/klauspost/compress/zstd.(*Decoder).DecodeAll": true,
 	"bytes.NewBuffer": true,
+}
+
+// routines that append their output to the slice they are given
+var dstLibraryAppends = map[string]bool{
+	"github.com/klauspost/compress/zstd.(*Encoder).EncodeAll": true, "github.com/klauspost/compress/zstd.(*Decoder).DecodeAll": true,
 }
 
 type dstChecker struct {
@@ -143,6 +147,12 @@ func (d *dstChecker) check(par *ssa.Parameter, depth int) []dstUse {
 						continue
 					}
 					bad = append(bad, dstUse{x.Pos(), "passed to dynamic call " + name})
+					continue
+				}
+				if dstLibraryAppends[name] {
+					// append-style routine: the output follows what dst already holds,
+					// so only the truncated slice (which is not tracked further) may be passed
+					bad = append(bad, dstUse{x.Pos(), "passed untruncated to " + name + ", which appends to it: the previous content stays in front of the output"})
 					continue
 				}
 				if dstLibraryOK[name] {
